@@ -7,7 +7,7 @@ from wcommon import *
 LINK_ERR = {1, 2, 3, 4, 5, 6, 7, 8, 9, 20, 21}
 EVENT_NAMES = {0: "instantiate-class", 1: "call-result", 2: "snapshot-globals", 3: "snapshot-memory", 4: "snapshot-pages"}
 # deviations from the specification that are open findings (each has its own sig); they do not explain a model mismatch
-DEVIATIONS = ("memory-import-max-vs-unbounded", "elem-oob-ignored")
+DEVIATIONS = ("memory-import-max-vs-unbounded", "elem-oob-ignored", "elem-null-ignored")
 
 
 def coq_actions(c, obs, ci=None):
@@ -26,6 +26,9 @@ def coq_actions(c, obs, ci=None):
             continue
         if k == "inst":
             acts.append("AInst %s %d" % (c["mods"][st["n"]]["coq"] if ci is None else "md_%d_%d" % (ci, st["n"]), o["code"]))
+        elif k == "call" and st.get("role") == "tgrow" and not o.get("trap"):
+            # table.grow is outside W: the model grows the instance's table itself (Rt/LinkCheck.v tab_grow) and compares the result
+            acts.append("ATabGrow %d %d %d" % (st["n"], st["args"][0], o["res"][0]))
         elif k == "call":
             ob = ("OTrap %d" % trap_code(o["trap"])) if o.get("trap") else ("ORes " + zl(o.get("res") or []))
             acts.append("ACall %d %d %s (%s)" % (st["n"], st["f"], zl(st.get("args") or []), ob))
@@ -79,12 +82,14 @@ def limits_match(amin, ahm, amax, imin, ihm, imax):
     return amin >= imin and ((not ihm) or (ahm and amax <= imax))
 
 
-def spec_import_ok(im, cur, live):
+def spec_import_ok(im, cur, live, curt=-1):
+    """cur / curt: the current size of the memory / table the import names (the external type of a memory or table
+    instance has its CURRENT size as the minimum); curt < 0: not observed, the declared minimum stands in"""
     if im["mod"] not in live or im["xkind"] != im["kind"]:
         return False
     k = im["kind"]
     if k == 0: return im["sig"] == im["xsig"]
-    if k == 1: return im["elem"] == im["xelem"] and limits_match(im["xmin"], im["xhasmax"], im["xmax"], im["min"], im["hasmax"], im["max"])
+    if k == 1: return im["elem"] == im["xelem"] and limits_match(curt if curt >= 0 else im["xmin"], im["xhasmax"], im["xmax"], im["min"], im["hasmax"], im["max"])
     if k == 2:   # memory types match iff the limits match AND the shared flags are equal (threads proposal)
         return limits_match(cur, im["xhasmax"], im["xmax"], im["min"], im["hasmax"], im["max"]) and im.get("shared", False) == im.get("xshared", False)
     return im["mut"] == im["xmut"] and im["vt"] == im["xvt"]
@@ -114,7 +119,12 @@ def oracle(c, eng, obs):
             if t.startswith("other") or t == "gopanic":
                 yield ("unusable-after", {}, "step %d: call on instance %d failed outside the WebAssembly trap classes: %s %s" % (si, st["n"], t, o.get("err")), si)
             if st.get("live"):
-                for w in live_oracle(st, o, si): yield w
+                for w in live_oracle(c, st, o, si): yield w
+            if st.get("expecttrap") and o.get("trap") != st["expecttrap"]:
+                # (elem (i32.const k) funcref (ref.null func)) of a later module on the shared table: the slot is null afterwards
+                yield ("elem-null-ignored", {}, "step %d: instance %d calls through slot %d of the shared table after instance %d's active element segment put ref.null there: "
+                       "the specification says the call traps (%s), observed %s (store.go applyElements skips null entries, so the old reference stays)"
+                       % (si, st["n"], st["args"][0], st.get("of", -1), st["expecttrap"], {k2: o.get(k2) for k2 in ("res", "trap")}), si)
             if st.get("expect") is not None:
                 m = mods[st.get("of", 0)]
                 if st["probe"] == "table" and m["fault"] in ("data", "start") and codes.get(m["n"]) not in (30, 31):
@@ -133,7 +143,8 @@ def oracle(c, eng, obs):
                 yield ("elem-offset-mutable-global", {}, "step %d: element offset global.get of a mutable import accepted (class %d)" % (si, code), si)
             if code == 98:
                 continue
-            bad = [i for i, im in enumerate(m["imports"]) if not spec_import_ok(im, (o.get("cur") or {}).get(str(i), -1), live)]
+            curt = o.get("curt") or {}
+            bad = [i for i, im in enumerate(m["imports"]) if not spec_import_ok(im, (o.get("cur") or {}).get(str(i), -1), live, curt.get(str(i), -1))]
             accepted = code not in LINK_ERR
             if accepted and bad:
                 im = m["imports"][bad[0]]
@@ -147,10 +158,17 @@ def oracle(c, eng, obs):
                 else:
                     yield ("accepts-spec-rejects", {"extern": im["kind"]}, "step %d: import %s accepted, extern_match rejects it" % (si, im), si)
             if not accepted and not bad:
-                # The "only if" wording tolerates a stricter linker, and the one documented case (table minimum judged against
-                # the declared minimum instead of the current length) cannot arise here: generated tables never grow. Every
-                # other rejection of a link whose imports all match is a defect (e.g. a confused function type).
-                yield ("rejects-valid-link", {"class": code}, "step %d: class %d although every import matches its export (%s)" % (si, code, o.get("err")), si)
+                # "exactly when": a rejection of a link whose imports all match is a defect (e.g. a confused function type). One
+                # class has a sig of its own: a table import's minimum judged against the exporter's DECLARED minimum instead
+                # of the table's current size (witness w-table-grown: the table grew before it was imported).
+                grown = [(i, im) for i, im in enumerate(m["imports"]) if im["kind"] == 1 and im["xkind"] == 1 and im["xmin"] < im["min"] <= curt.get(str(i), -1)]
+                if code == 4 and grown:
+                    i, im = grown[0]
+                    yield ("rejects-spec-accepts", {"extern": 1, "what": "table-current-size"},
+                           "step %d: table import %d (min %d) of an exported table declared with min %d that has %d elements now is rejected (%s); the external type of a table "
+                           "instance has its CURRENT size as minimum (as resolveImports does for memories), so the import matches" % (si, i, im["min"], im["xmin"], curt[str(i)], o.get("err")), si)
+                else:
+                    yield ("rejects-valid-link", {"class": code}, "step %d: class %d although every import matches its export (%s)" % (si, code, o.get("err")), si)
             if code == 0:
                 live.add(st["n"])
                 continue
@@ -175,16 +193,22 @@ def oracle(c, eng, obs):
                            "step %d: instance %d memory after the failed instantiation is not (before + the data segments preceding the failing one)" % (si, n), si)
 
 
-def live_oracle(st, o, si):
+def live_oracle(c, st, o, si):
     """The property on one live-frame probe: instance st.n's frame touches the shared object, calls out, and while that
     frame is live the object is written (dir cw) / read (dir cr) by another instance, the same instance re-entered, or
     the host. The objects are the exporter's objects themselves, not copies, so: the value the frame reads after the
     call is the last value written to the object by ANYONE (cw); what anyone reads during the call is what the frame
-    wrote last (cr); a growth performed during the call is visible to the frame (size, and the new cells are accessible)."""
+    wrote last (cr); a growth performed during the call is visible to the frame (size, and the new cells are accessible).
+    And it is THE object that grows, nothing else: of all tables and memories of all instances (sizes read from every
+    instance before and after the call) those that are the shared object by design have size min(before + growth attempts,
+    max) afterwards, in every instance's index space, and every other one keeps its size."""
     L = st["live"]
     sig = {"object": L["kind"], "dir": L["dir"]}
-    what = ("%s, live frame in instance %d (%s of the object), %s by %s through hops %s (instances %s), first instruction %s, before the call: %s, loop %d, grow %s"
-            % (L["kind"], st["n"], L["reader"], "written" if L["dir"] == "cw" else "read", L["writer"], L["path"], L["mods"], L["first"], L["touch"], L["loop"], L["grow"]))
+    what = ("%s, live frame in instance %d (%s of the object)%s, %s by %s through hops %s (instances %s%s), first instruction %s, before the call: %s, loop %d, grow %s%s, "
+            "call engine of the writer's code vs the writer: %s"
+            % (L["kind"], L["mods"][0], L["reader"], (", entered by the host through instance %d (%s)" % (L["entry"], L["entryvia"])) if L.get("entry", -1) >= 0 else "",
+               "written" if L["dir"] == "cw" else "read", L["writer"], L["path"], L["mods"], (", shared table at index %s there" % L["tidx"]) if L.get("tidx") else "",
+               L["first"], L["touch"], L["loop"], L["grow"], (", slot written by table.%s" % L["wmode"]) if L.get("wmode") else "", L.get("ctx")))
     if o.get("trap"):
         yield ("live-frame-visibility", sig, "step %d: %s: the call trapped (%s); no instruction on the path can trap" % (si, what, o["trap"]), si)
         return
@@ -201,6 +225,26 @@ def live_oracle(st, o, si):
         if after != want:
             yield ("live-frame-visibility", dict(sig, what="size"), "step %d: %s: size before the call %d, %d growth(s) by one during the call (maximum %d), size read by the frame after the call %d, expected %d"
                    % (si, what, before, L["grows"], L["max"], after, want), si)
+            return
+    # every table and memory of every instance, before and after
+    pre = {z["n"]: z for z in o.get("pre") or []}
+    grows = L["grows"] if L["dir"] == "cw" else 0
+    bound = L["max"] if L["max"] >= 0 else 65536
+    for z in o.get("post") or []:
+        b, mo = pre.get(z["n"]), c["mods"][z["n"]]
+        if b is None: continue
+        idents = mo.get("tabs") or []
+        objs = [("table %d" % ti, L["kind"] == "tab" and ti < len(idents) and idents[ti] == L["obj"], x, y, idents[ti] if ti < len(idents) else None)
+                for ti, (x, y) in enumerate(zip(b["tabs"], z["tabs"]))]
+        objs.append(("memory", L["kind"] == "mem" and mo["memof"] == L["obj"][0], b["pages"], z["pages"], mo["memof"]))
+        if len(b["tabs"]) != len(z["tabs"]): objs.append(("number of tables", False, len(b["tabs"]), len(z["tabs"]), None))
+        for name, shared, x, y, ident in objs:
+            want = min(x + grows, max(bound, x)) if shared else x
+            if y != want:
+                yield ("live-frame-visibility", dict(sig, what="size"),
+                       "step %d: %s: %s of instance %d (%s, by design %s) has size %d before and %d after the call, expected %d (%d growth(s) by one of the shared object, maximum %d); all sizes before %s, after %s"
+                       % (si, what, name, z["n"], "the shared object" if shared else "NOT the shared object", ident, x, y, want, grows, L["max"], o.get("pre"), o.get("post")), si)
+                return
 
 
 def is_reexport_call(c, si):
@@ -226,7 +270,7 @@ def hazard_before(c, si):
 
 def engines_differ(c):
     a, b = c["engines"]["interp"], c["engines"]["compiler"]
-    keys = ("skip", "code", "res", "trap", "globals", "mem", "pages")
+    keys = ("skip", "code", "res", "trap", "globals", "mem", "pages", "pre", "post", "curt")
     for si, (x, y) in enumerate(zip(a, b)):
         if "exhaust" in (x.get("trap"), y.get("trap")): return None
         px, py = {k: x.get(k) for k in keys}, {k: y.get(k) for k in keys}
@@ -244,8 +288,9 @@ def run(tier, seed):
                    "tools/go2coq (memoryBytesNumToPages, MemoryPagesToBytesNum, newMemorySizer regenerated on every run)",
                    "hand transcription of resolveImports / instantiate / applyElements / applyData / the constant-expression validators into coq/Rt/Linking.v, tied by the correspondence run",
                    "coq/Wasm/Sem.v (reference semantics W), coq/Rt/LinkCheck.v, harness/c04 (generator, encoder, Coq printer), checks/c04.py (oracle)"]
-    ck.assumptions += ["value types i32/i64 and funcref tables only; one memory and one table per module; no passive segments, no ref.null element entries; table.set/table.grow only in the live-frame family's "
-                       "table graphs, which W does not model (engines + oracle only)",
+    ck.assumptions += ["value types i32/i64 and funcref tables only; in the graphs replayed on W one memory and one table per module, no passive segments, ref.null element entries only in witness w-elem-null, "
+                       "table.grow only in witness w-table-grown (model: Rt/LinkCheck.v tab_grow on the store); the live-frame family's table graphs (several tables per module, "
+                       "table.set/grow/fill/copy/init, passive segments) are outside W (engines + oracle only)",
                        "at most one incompatible import per generated module (resolveImports iterates a Go map: with several, the reported error class is not deterministic)",
                        "default page limit (65536) in the run; the theorem takes the limit as a parameter and assumes declared maxima within it",
                        "closing an exporter while importers are live is C09/C10, not this property"]
@@ -263,12 +308,16 @@ def run(tier, seed):
     if rc != 0 or not cases:
         ck.violation("harness-crash", {"kind": "crash"}, {"rc": rc, "tail": out[-3000:]})
         return ck.finish()
-    dist = {"instantiations": {}, "import_variants": {}, "probes": {"mem": 0, "global": 0, "table": 0}, "calls": 0, "traps": {}, "skipped_steps": 0,
+    dist = {"instantiations": {}, "import_variants": {}, "probes": {"mem": 0, "global": 0, "table": 0, "table-null": 0}, "calls": 0, "traps": {}, "skipped_steps": 0,
             "stricter_than_spec": 0, "model_out_of_fuel": 0, "elem_oob_ignored": 0,
             "memory_sharedness": {"graphs_with_threads": 0, "import_shared/export_shared": {}, "import_shared/export_unshared": {}, "import_unshared/export_shared": {}, "import_unshared/export_unshared": {}},
             "live": {"graphs": 0, "witness_graphs": 0, "probes": 0, "modelled_in_W": 0, "engines_and_oracle_only": 0, "owner_frame_direct_call_global": 0,
                      "object": {}, "direction": {}, "live_frame_of": {}, "touched_by": {}, "hops": {}, "first_instruction": {}, "before_call": {}, "path": {},
-                     "looped": 0, "with_growth": 0, "instances_per_graph": {}, "host_functions": {}}}
+                     "looped": 0, "with_growth": 0, "instances_per_graph": {}, "host_functions": {},
+                     "index_spaces": {"graphs_with_blind_instance": 0, "entered_through": {}, "enter_function_reaches_probe_by": {}, "table_slot_written_by(copy falls back to set in an instance with a single table)": {},
+                                      "call_engine_vs_writer(all probes)": {}, "call_engine_vs_writer(growing probes)": {}, "shared_table_index_per_instance": {},
+                                      "tables_per_instance": {}, "instances_with_private_memory_not_seeing_shared": 0,
+                                      "probes_where_instances_on_path_bind_shared_table_at_different_indices": 0}}}
     shown = set()
 
     def viol(kind, sig, c, eng, si, detail, no_input=False):
@@ -325,6 +374,16 @@ def run(tier, seed):
             dl["graphs"] += 1
             if c.get("witness"): dl["witness_graphs"] += 1
             bump(dl["instances_per_graph"], str(sum(1 for m in c["mods"] if not m.get("host"))))
+            dx = dl["index_spaces"]
+            if c.get("blind"): dx["graphs_with_blind_instance"] += 1
+            kind0 = next((s2["live"]["kind"] for s2 in c["steps"] if s2.get("live")), None)
+            obj0 = next((s2["live"]["obj"] for s2 in c["steps"] if s2.get("live")), None)
+            for m in c["mods"]:
+                if m.get("host"): continue
+                if kind0 == "tab":
+                    bump(dx["tables_per_instance"], str(len(m.get("tabs") or [])))
+                    bump(dx["shared_table_index_per_instance"], str((m.get("tabs") or []).index(obj0)) if obj0 in (m.get("tabs") or []) else "not visible")
+                if kind0 == "mem" and m["memof"] >= 0 and m["memof"] != obj0[0]: dx["instances_with_private_memory_not_seeing_shared"] += 1
             for h in c.get("hosts") or []: bump(dl["host_functions"], h["kind"])
         for st, o in zip(c["steps"], obs):
             if o.get("skip"): dist["skipped_steps"] += 1; continue
@@ -336,6 +395,13 @@ def run(tier, seed):
                 for key, val in (("object", L["kind"]), ("direction", L["dir"]), ("live_frame_of", L["reader"]), ("touched_by", L["writer"]), ("hops", str(L["hops"])),
                                  ("first_instruction", L["first"]), ("before_call", L["touch"]), ("path", L["path"])):
                     bump(dl[key], val)
+                dx = dl["index_spaces"]
+                bump(dx["entered_through"], "the probe's own instance" if L.get("entry", -1) < 0 else "another instance")
+                if L.get("entry", -1) >= 0: bump(dx["enter_function_reaches_probe_by"], L["entryvia"])
+                if L.get("wmode"): bump(dx["table_slot_written_by(copy falls back to set in an instance with a single table)"], "table." + L["wmode"])
+                bump(dx["call_engine_vs_writer(all probes)"], L.get("ctx"))
+                if L["grow"]: bump(dx["call_engine_vs_writer(growing probes)"], L.get("ctx"))
+                if len(set(t for t in (L.get("tidx") or []) if t >= 0)) > 1: dx["probes_where_instances_on_path_bind_shared_table_at_different_indices"] += 1
                 if L["loop"]: dl["looped"] += 1
                 if L["grow"]: dl["with_growth"] += 1
                 if L["kind"] in ("g32", "g64") and L["reader"] == "owner" and L["first"] == "call" and L["dir"] == "cw": dl["owner_frame_direct_call_global"] += 1
@@ -370,7 +436,9 @@ def run(tier, seed):
     ck.dist = dist
     ck.samples = [dict(id=c["id"], witness=c.get("witness"), mods=[dict(n=m["n"], fault=m["fault"], imports=[(i["kind"], i["variant"]) for i in m["imports"]]) for m in c["mods"]],
                        steps=[(s["k"], s["n"], s.get("role")) for s in c["steps"][:12]]) for c in cases[:6]]
-    ck.extra["rule"] = ("generated graphs (exporter, 1-2 importers each optionally preceded by a faulty variant, plus 7 fixed witnesses) x interleaved calls/probes/snapshots x both engines; "
+    ck.extra["rule"] = ("generated graphs (exporter, 1-2 importers each optionally preceded by a faulty variant, plus 11 fixed witnesses, among them w-grown / w-table-grown: the exporter's memory / table "
+                        "grows (memory.grow / table.grow) before an importer declares the current size as its minimum (must be accepted) and one more (must be rejected), and w-elem-null: an importer's "
+                        "active element segment puts ref.null over a non-null slot of the shared table) x interleaved calls/probes/snapshots x both engines; "
                         "every engine history is replayed through Rt/Linking.v instantiate + W (coq/Rt/LinkCheck.v: instantiation class vs code_accept AND vs extern_match, call results, "
                         "per-instance globals/memory/pages) and judged by the Python oracle (spec import predicate, write-here/read-there probes, captured initial values, "
                         "frame of failed instantiations, engine agreement); non-trivial = at least two probes ran across live instances. "
@@ -378,7 +446,13 @@ def run(tier, seed):
                         "a host module + 3-5 instances; a frame touches a shared mutable global / memory cell / table slot, calls out (call of an import or call_indirect through the shared table, 1-3 hops "
                         "through other instances, the table or host functions), the object is written or read meanwhile by another instance, the same instance re-entered, or the host "
                         "(api.MutableGlobal / api.Memory), possibly grown, and is read again in the same frame; globals and memory are also replayed on W (Rt/LinkLive.v: host functions re-enter), "
-                        "table slots are engine-vs-engine + oracle; oracle: the value read after the call is the last value written by anyone")
+                        "table slots are engine-vs-engine + oracle; oracle: the value read after the call is the last value written by anyone. "
+                        "Index spaces differ between the instances of a graph: in table graphs every instance has 0-5 tables, the shared one at index 0, 1 or 2 next to private tables defined there or "
+                        "imported from earlier instances (in either order), or not at all; a last 'blind' instance never sees the object and has a private memory / table / globals at the indices where "
+                        "the others have the shared one; about half of the probes are entered through an 'enter' function of another instance (often the blind one) that calls the probe directly, "
+                        "through the table or through the host, so the instance whose call engine runs differs from the instance whose code writes / grows / executes ref.func; the slot is written by "
+                        "table.set / table.fill / table.init (passive segment) / table.copy (from a private table), all with explicit table indices; the sizes of EVERY table and memory of EVERY instance "
+                        "are read before and after each probe: the shared object has min(before + growth attempts, max) in every instance's index space, everything else keeps its size")
     ev, err = eval_link("c04", items, defs)
     if err:
         ck.violation("model-eval", {"kind": "model-eval"}, {"err": err}, no_input=True)
@@ -411,6 +485,13 @@ def run(tier, seed):
             if st and st["k"] == "inst" and m["fault"] == "mutoff":
                 viol("elem-offset-mutable-global", {"kind": "elem-offset-mutable-global"}, c, eng, si, {"model_class": val, "obs": o})
                 continue
+            if st and st["k"] == "inst" and kind == 0 and val == 0 and o["code"] == 4:
+                ct = o.get("curt") or {}
+                if any(im["kind"] == 1 and im["xkind"] == 1 and im["xmin"] < im["min"] <= ct.get(str(i), -1) for i, im in enumerate(m["imports"])):
+                    # the model judges a table import against the table's current size (Rt/Linking.v code_accept), the code does not
+                    viol("rejects-spec-accepts", {"kind": "rejects-spec-accepts", "extern": 1, "what": "table-current-size"}, c, eng, si,
+                         {"model": "Rt/Linking.v code_accept (table minimum vs the CURRENT size, = the specification) accepts; resolveImports answers class 4 (compares with the declared minimum)", "obs": o})
+                    continue
             why = [w for w in oracle(c, eng, c["engines"][eng]) if w[0] not in DEVIATIONS]
             viol("model-differs", {"kind": "model-differs", "engine": eng, "what": EVENT_NAMES.get(kind, str(kind))}, c, eng, si,
                  {"model_value": val, "obs": o, "coq": [x["coq"][:3000] for x in c["mods"]], "oracle": [w[2] for w in why][:3]}, no_input=not why)
